@@ -159,6 +159,13 @@ def gen_cases(rng, tier):
         toks |= {"INVITE" + ch + "v2", ch + "BYE", "X" + ch + "PING", "ACK" + ch, ch}
     for j, t in enumerate(sorted(toks)):
         cases.append(["m%d" % j, "c01", "meth", hx(t)])
+    # IPv4 literals in the host part: every octet value at every position, and texts just outside the literal grammar
+    hk = 0
+    hosts = ["%d.%d.%d.%d" % q for q in ((0, 0, 0, 0), (255, 255, 255, 255), (192, 168, 1, 255), (10, 255, 0, 7), (255, 0, 0, 1), (1, 2, 3, 4), (127, 0, 0, 1), (100, 200, 250, 254), (9, 99, 199, 249))]
+    hosts += ["%d.1.1.1" % o for o in range(0, 256, 5)] + ["1.1.1.%d" % o for o in range(250, 256)]
+    hosts += ["256.1.1.1", "1.256.1.1", "1.1.1.256", "1.2.3.04", "01.2.3.4", "1.2.3", "1.2.3.4.5", "1.2.3.4:5060", "255.255.255.255:1", "1.2.3.4;x", "999.1.1.1", "1..2.3", "a.b.c.d", "1.2.3.x", "0255.1.1.1", "1.2.3.4x"]
+    for h in hosts:
+        cases.append(["hst%d" % hk, "c01", "host", hx(h)]); hk += 1
     # name-addr headers
     for i in range(500 if tier == "quick" else 10000):
         u = g_uri(rng)
@@ -286,6 +293,13 @@ def oracle(case, impl):
                 tok, METHODS[int(m.group(2))] if m.group(2) != "-" else "an extension method", METHODS[int(want_k)] if want_k != "-" else "an extension method"))
         elif printed != tok:
             out.append("method token %r prints as %r" % (tok, printed))
+    elif kind == "host":
+        t = bytes.fromhex(case[3]).decode()
+        m = re.fullmatch(r"(\d{1,3})\.(\d{1,3})\.(\d{1,3})\.(\d{1,3})((?:[:;].*)?)", t)
+        if m and all(int(x) <= 255 and (x == "0" or not x.startswith("0")) for x in m.groups()[:4]):
+            want = "IP4:%s.%s.%s.%s" % m.groups()[:4]
+            if not impl.startswith(want + ":"):
+                out.append("host %r is an IPv4 literal (used without DNS), the parser made %s of it" % (t, impl))
     elif kind == "num":
         m = re.match(r"T1=(\S*)\tD1=(\S*)", impl)
         if not m:
@@ -360,6 +374,9 @@ def normalize_impl(case, s):
 
 
 def accepts(case, impl, model):
+    if case[2] == "host":
+        # the model decides IPv4 literal or not (and the address); names / IPv6 / rejection are outside it
+        return (impl.rsplit(":", 1)[0] if impl.startswith("IP4:") else "OTHER") == model
     if case[2] in ("uri", "meth", "msg"):
         return impl == model
     if case[2] == "na":
